@@ -115,6 +115,18 @@ pub fn replay_v(prop: &str, params: &Value, actions: &Value) -> Vec<Viol> {
     all
 }
 
+/// u128 in a JSON monitor (serde_json::Value holds at most u64 numbers)
+fn ju(v: u128) -> Value {
+    json!(v.to_string())
+}
+fn uj(v: &Value) -> Option<u128> {
+    match v {
+        Value::String(s) => s.parse().ok(),
+        Value::Number(n) => n.as_u64().map(|x| x as u128),
+        _ => None,
+    }
+}
+
 fn dec(cfg: &VCfg) -> u128 {
     10u128.pow(cfg.decimals as u32)
 }
@@ -142,16 +154,16 @@ fn swap_alphabet(m: &VModel, w: &mut VWorld, s: &VSt, with_blk: bool) -> Vec<VAc
         acts.push(VAct::SwapOut { add: tps > 0, base: tps.unsigned_abs(), limit: 0 });
     }
     if let (Some(lq), Some(lb), Some(ladd), Some(lin)) = (
-        s.mon["last_q"].as_u64(),
-        s.mon["last_b"].as_u64(),
+        uj(&s.mon["last_q"]),
+        uj(&s.mon["last_b"]),
         s.mon["last_add_reserve"].as_bool(),
         s.mon["last_in"].as_bool(),
     ) {
         let _ = lin;
         // round trips: undo the previous swap by base amount, and by quote amount
         // previous swap added quote to the reserve (ladd) => undo removes it
-        acts.push(VAct::SwapOut { add: ladd, base: lb as u128, limit: 0 });
-        acts.push(VAct::SwapIn { add: !ladd, quote: lq as u128, limit: 0, over: true });
+        acts.push(VAct::SwapOut { add: ladd, base: lb, limit: 0 });
+        acts.push(VAct::SwapIn { add: !ladd, quote: lq, limit: 0, over: true });
     }
     for add in [true, false] {
         for a in &qa {
@@ -216,7 +228,7 @@ fn step_c01(m: &VModel, w: &mut VWorld, s: &VSt, a: &VAct, out: &mut StepOut) ->
     };
     let _ = has_rem;
     // (2) base reserve + net position == initial base reserve
-    let binit = mon["b0"].as_u64().unwrap_or(m.cfg.base_reserve as u64) as i128;
+    let binit = uj(&mon["b0"]).unwrap_or(m.cfg.base_reserve) as i128;
     if b1 as i128 + tps1 != binit {
         out.viol(
             "C01:base-plus-net-position",
@@ -225,7 +237,7 @@ fn step_c01(m: &VModel, w: &mut VWorld, s: &VSt, a: &VAct, out: &mut StepOut) ->
     }
     // (3) quote reserve at a revisited net position
     let key = tps1.to_string();
-    let prev = mon["seen"][&key].as_u64().map(|x| x as u128);
+    let prev = uj(&mon["seen"][&key]);
     if let Some(pq) = prev {
         out.tag("c01:revisited-net-position");
         if q1 < pq {
@@ -238,13 +250,13 @@ fn step_c01(m: &VModel, w: &mut VWorld, s: &VSt, a: &VAct, out: &mut StepOut) ->
         }
     }
     let newmax = prev.map(|p| p.max(q1)).unwrap_or(q1);
-    mon["seen"][&key] = json!(newmax as u64);
+    mon["seen"][&key] = ju(newmax);
     if mon["seen"][&itoi(&st0.total_position_size).to_string()].is_null() {
-        mon["seen"][&itoi(&st0.total_position_size).to_string()] = json!(q0 as u64);
+        mon["seen"][&itoi(&st0.total_position_size).to_string()] = ju(q0);
     }
     let (lq, lb) = w.last_swap().unwrap_or((0, 0));
-    mon["last_q"] = json!(lq as u64);
-    mon["last_b"] = json!(lb as u64);
+    mon["last_q"] = ju(lq);
+    mon["last_b"] = ju(lb);
     mon["last_add_reserve"] = json!(q1 > q0);
     mon["last_in"] = json!(matches!(a, VAct::SwapIn { .. }));
     Some(VSt { snap: post, mon })
@@ -263,16 +275,20 @@ pub fn run_c01(tier: Tier) -> i32 {
     ];
     let amounts_q = vec![1, 2, 7, 999_999, dd + 1, 3_333_337];
     let amounts_t = vec![1, 2, 3, 7, 999_999, dd, dd + 1, 3_333_337, 10 * dd];
-    let (pairs, amounts, depth) = match tier {
+    let (mut pairs, amounts, depth) = match tier {
         Tier::Quick => (pairs_q, amounts_q, 3),
         Tier::Thorough => (pairs_t, amounts_t, 3),
     };
+    // deep pools: the raw reserve product exceeds 2^128 (swaps must then either be rejected or keep
+    // every clause; amounts are scaled by the reserves through q/2, q-1, b/2, b-1 and the round trips)
+    pairs.push((30_000_000_000_000_000_000, 30_000_000_000_000_000_007));
+    pairs.push((40_000_000_000_000, 10_000_000_000_000_000_000_000_003));
     for (q, b) in pairs {
         let m = VModel {
             cfg: VCfg { quote_reserve: q, base_reserve: b, decimals: 6, fluct: 0, real_feed: false },
             oracle: step_c01,
             alpha: alpha_c01,
-            init_mon: json!({"b0": b as u64, "seen": {"0": q as u64}}),
+            init_mon: json!({"b0": ju(b), "seen": {"0": ju(q)}}),
             amounts: amounts.clone(),
             secs: vec![15],
         };
@@ -284,7 +300,7 @@ pub fn run_c01(tier: Tier) -> i32 {
             cfg: VCfg { quote_reserve: 1000 * dd, base_reserve: 100 * dd, decimals: 6, fluct: 0, real_feed: false },
             oracle: step_c01,
             alpha: alpha_c01,
-            init_mon: json!({"b0": (100 * dd) as u64, "seen": {"0": (1000 * dd) as u64}}),
+            init_mon: json!({"b0": ju(100 * dd), "seen": {"0": ju(1000 * dd)}}),
             amounts: vec![1, 7, dd + 1, 3_333_337],
             secs: vec![],
         };
@@ -294,7 +310,7 @@ pub fn run_c01(tier: Tier) -> i32 {
             cfg: VCfg { quote_reserve: 1000 * d9 + 7, base_reserve: 100 * d9 + 3, decimals: 9, fluct: 0, real_feed: false },
             oracle: step_c01,
             alpha: alpha_c01,
-            init_mon: json!({"b0": (100 * d9 + 3) as u64, "seen": {"0": (1000 * d9 + 7) as u64}}),
+            init_mon: json!({"b0": ju(100 * d9 + 3), "seen": {"0": ju(1000 * d9 + 7)}}),
             amounts: vec![1, 7, d9 + 1, 3_333_333_337],
             secs: vec![15],
         };
